@@ -120,7 +120,10 @@ Fixpoint dcache_trace (ops : list sx) (d : dcache) (acc : list sx) : list sx :=
   match ops with
   | [] => rev acc
   | op :: t =>
-      if dz (dnth op 0) =? 0 then
+      if dz (dnth op 0) =? 2 then          (* reset() *)
+        let d' := dc_reset d in
+        dcache_trace t d' (Lx [Lx []; Zx 0; sx_dcache d'; sx_zmap_sorted (lower d')] :: acc)
+      else if dz (dnth op 0) =? 0 then
         let '(r, d', p) := dc_read d (dz (dnth op 1)) (dz (dnth op 2)) (dbool (dnth op 3)) in
         dcache_trace t d' (Lx [sx_res Zx r; Zx p; sx_dcache d'; sx_zmap_sorted (lower d')] :: acc)
       else
